@@ -319,18 +319,29 @@ def build_message(case, rnd):
     return m, body
 
 
-def pgpy_encrypt(m, case):
+def pgpy_encrypt(m, case, notes=None):
     K = keys()
     cipher = getattr(SymmetricKeyAlgorithm, case['cipher'])
     recips = case['recips']
     sk = cipher.gen_key() if len(recips) > 1 else None
+    # every second multi-recipient case hands the session key over in a bytearray (what a caller has who derived or read it into a buffer):
+    # the same buffer is passed for every recipient, so it has to be left as it was
+    sk0 = bytes(sk) if sk is not None else None
+    if sk is not None and case['rseed'] & 1:
+        sk = bytearray(sk)
     e = None
+    state = []
     for r in recips:
         src = m if e is None else e
         if r[0] == 'key':
             e = K[r[1]]['pub'].encrypt(src, cipher=cipher, sessionkey=sk)
         else:
             e = src.encrypt(pw_of(r[1]), sessionkey=sk, cipher=cipher, hash=getattr(HashAlgorithm, r[2]))
+        if sk is not None and bytes(sk) != sk0 and not state:
+            state.append('the session key the caller passed in a %s was changed by the encrypt call for recipient %r (now %s...)'
+                         % (type(sk).__name__, r[:2], bytes(sk)[:4].hex()))
+    if notes is not None:
+        notes.extend(state)
     return e
 
 
@@ -343,7 +354,7 @@ def run_forward(case):
     want = msg_facts(m)
     plain = bytes(m)
     cipher = getattr(SymmetricKeyAlgorithm, case['cipher'])
-    e = pgpy_encrypt(m, case)
+    e = pgpy_encrypt(m, case, fails)
     raw = bytes(e)
     if not e.is_encrypted:
         fails.append('result of encrypt is not an encrypted message')
